@@ -2021,6 +2021,18 @@ impl<R: Reader, S: EvaluationStorage<R>> Evaluation<R, S> {
     }
 
     fn evaluate_internal(&mut self) -> Result<EvaluationResult<R>> {
+        // An operation that needed more information pushes a value once it is resumed,
+        // like any other operation that is neither a piece nor a location. If it was
+        // the last operation and pieces have been seen, then it leaves the same
+        // unterminated piece that is rejected for operations that do not suspend.
+        if let EvaluationState::Waiting(ref waiting) = self.state
+            && !matches!(waiting, EvaluationWaiting::AtLocation)
+            && self.end_of_expression()
+            && !self.result.is_empty()
+        {
+            return Err(Error::InvalidPiece);
+        }
+
         while !self.end_of_expression() {
             self.iteration += 1;
             if let Some(max_iterations) = self.max_iterations
